@@ -49,6 +49,9 @@ type Spec struct {
 	Ops     []Op               `json:"ops"`
 	// QueryAnytime lets queries run even when no clean Process precedes them.
 	QueryAnytime bool `json:"query_anytime,omitempty"`
+	// QueryAfterErrors lets queries run after a Process that returned errors
+	// (but not after a load that has not been processed yet).
+	QueryAfterErrors bool `json:"query_after_errors,omitempty"`
 }
 
 // OpResult is what one operation returned.
@@ -237,7 +240,9 @@ func Exec(s *Spec) *Result {
 		switch op.Op {
 		case "parse", "read", "addpath":
 			readable = false
-		case "process", "getmodule":
+		case "process":
+			readable = r.Panic == "" && r.Overrun == "" && (len(r.Errs) == 0 || s.QueryAfterErrors)
+		case "getmodule":
 			readable = r.Panic == "" && r.Overrun == "" && len(r.Errs) == 0
 		}
 		res.Ticks += r.Ticks
